@@ -394,6 +394,9 @@ func run() {
 	// memio.go translated (C15)
 	write("MemIO", guarded("MemIO", func() string { return t.genMemIO() }))
 	dataMods = append(dataMods, "MemIO")
+	// the request constructors of z80.go (C06)
+	write("Ctor", guarded("Ctor", func() string { return t.genCtors() }))
+	dataMods = append(dataMods, "Ctor")
 	// the Go glue of internal/tinycpm translated (C18)
 	write("CPMGlue", guarded("CPMGlue", func() string { return genTinyCPMGlue(*repo) }))
 	dataMods = append(dataMods, "CPMGlue")
